@@ -5,6 +5,10 @@ import json, sys
 ALL = ["C%02d" % i for i in range(1, 21)]
 
 CHECKS = {
+ "C06": dict(level="exploration", design="§3 C06",
+   technique="exhaustive enumeration (product mode) of a packet-sequence language: all words up to a length over an alphabet of teletext packet kinds x reader options x multiplexing variants x row-text tables, assembled into valid transport streams by an independent encoder and judged against a reference page machine written from the property sentence",
+   text="Every word of length <=3 over 26 packet kinds (4 over 16; thorough <=4 over 26 and 5 over 14), under serial and parallel mode, page/PID given or auto-detected, 8 multiplexing variants, every G0 position under 7 national subsets, all attribute-code strings of length <=3, parity failures at every cell and every truncation of six packet kinds is read by ReadFromTeletext under recover() and compared with the reference machine (cues, times, lines, runs, text).",
+   note="Trusted: Go toolchain/stdlib, astits (muxer for the packet/PAT/PMT layer; demuxer delegated to by the library), engine/ref/teletext (encoder + reference machine). Shapes the sentence does not settle run under the crash oracle only (listed in the check's assumptions). Known finding: X/28-M/29 triplet misread."),
  "C07": dict(level="model_checking", design="§3 C07, §0.1 E3",
    technique="explicit-state search over operation histories (BFS with canonical-state deduplication, real operations as transition functions compared with the composed reference specifications) + exhaustive (source document x destination) conversion pairs through the file API + the CLI binary compared byte for byte with the library",
    text="Every readable corpus document is converted to every destination extension through OpenFile/Write on real files and read back (count, order, truncated times, text); every state reachable by operation sequences of length <=2 (thorough 3) over an 11-letter alphabet from 11 source documents is checked against the composed specifications and written to all writers; the CLI built from the tree is run for every sub-command and compared with the library.",
